@@ -451,7 +451,7 @@ def run_history(H, vars_, tid, cfg, step_hook=None):
         return {"call": call, "s": s, "new": [], "e": DUMMY, "es": [], "n": 0, "v": DUMMY, "signed": False,
                 "extra": [], "cs": [], "others": [], "anc": -1, "ret": [], "rets": [], "groups": [], "scons": [],
                 "exc": "", "excClaripy": False, "mode": "exact", "fault": 0, "fired": False, "conc": False, "csb": [],
-                "anntags": []}
+                "anntags": [], "annotvar": False}
 
     for op_index, op in enumerate(H):
         if step_hook is not None:
@@ -495,6 +495,7 @@ def run_history(H, vars_, tid, cfg, step_hook=None):
                 if len(op) > 3 and op[3] == "saa":
                     # constraints the solver must never rewrite (and must keep) across simplify()
                     built = [c.annotate(claripy.annotation.SimplificationAvoidanceAnnotation()) for c in built]
+                e["annotvar"] = len(op) > 3 and op[3] == "annotvar"
                 if len(op) > 3 and op[3] == "annotvar":
                     # the same constraints over ANNOTATED variables (same names): meaning unchanged; used to see whether
                     # annotations of one user's variables leak into another user's expressions (C20)
